@@ -35,7 +35,7 @@ type c09Case struct {
 
 var c09Names = []string{"a", "b", "c", "d"}
 
-// a script variant: kind 0 = valid with the given use targets, 1 = unparsable, 2 = check-failing, 3 = check-failing with a multi-entry error chain
+// a script variant: kind 0 = valid with the given use targets, 1 = unparsable, 4 = unparsable in two places, 2 = check-failing, 3 = check-failing with a multi-entry error chain
 type c09Var struct {
 	Kind int
 	Uses []string
@@ -55,7 +55,7 @@ func c09Variants(maxUses int) []c09Var {
 			}
 		}
 	}
-	vs = append(vs, c09Var{Kind: 1}, c09Var{Kind: 2}, c09Var{Kind: 3})
+	vs = append(vs, c09Var{Kind: 1}, c09Var{Kind: 2}, c09Var{Kind: 3}, c09Var{Kind: 4})
 	// valid scripts without a single statement
 	vs = append(vs, c09Var{Kind: 0, Text: "# only a comment\n"}, c09Var{Kind: 0, Text: "\n  \n"})
 	return vs
@@ -67,6 +67,9 @@ func (v c09Var) Src() string {
 	switch v.Kind {
 	case 1:
 		return "p(1)\n((("
+	case 4:
+		// unparsable in two places (the parser records more than one error)
+		return "p(1)\n1(2)\n)\nx = = 2\n"
 	case 2:
 		return "p(1)\n  nosuch()"
 	case 3:
@@ -659,8 +662,8 @@ func init() {
 	run.Register(&run.Check{
 		ID:    "C09",
 		Level: "model_checking",
-		Rule: "script sets over names {a,b,c,d}: each script is valid with an ordered list of <=2 use targets in {a,b,c,d,missing} (31 variants), valid without any statement (comment-only, blank lines), unparsable, check-failing, or check-failing with a multi-entry error chain; ALL sets of 1..3 scripts (36+36^2+36^3) under ALL parse/check orders x ALL link orders of the loader's two map iterations (overlay rewrite of the range statements), " +
-			"4-script sets with <=1 use each and all 4-sets of valid scripts with <=2 distinct existing targets (quick) / all 36^4 (thorough) under all 24 link orders; every (set, order) is a fresh ParseScript, and each set is loaded a second time under the same orders (same verdicts, same error texts); oracle: verdict map == graph-reachability reference (hence equal across orders), every use call of an accepted script bound to the accepted script of that name, " +
+		Rule: "script sets over names {a,b,c,d}: each script is valid with an ordered list of <=2 use targets in {a,b,c,d,missing} (31 variants), valid without any statement (comment-only, blank lines), unparsable, check-failing, or check-failing with a multi-entry error chain; ALL sets of 1..3 scripts (37+37^2+37^3) under ALL parse/check orders x ALL link orders of the loader's two map iterations (overlay rewrite of the range statements), " +
+			"4-script sets with <=1 use each and all 4-sets of valid scripts with <=2 distinct existing targets (quick) / all 37^4 (thorough) under all 24 link orders; every (set, order) is a fresh ParseScript, and each set is loaded a second time under the same orders (same verdicts, same error texts); oracle: verdict map == graph-reachability reference (hence equal across orders), every use call of an accepted script bound to the accepted script of that name, " +
 			"a dependency-rejected script's position chain = root cause (callee's own error, use of a missing name, or cycle-closing call) followed by the use call sites outward, every entry inside the file it names; plus the unmodified map order 8x on a third of the 3-script sets (conformance of the seam)",
 		Assumptions:    []string{"the loader's only nondeterminism is the iteration order of its two script maps (checked by grep: pkg/engine has no other map range, goroutine or clock)"},
 		Run:            c09Run,
